@@ -151,7 +151,7 @@ PROPS = {
     "C14": dict(
         title="A failing node fails the call, names itself, and starts nothing downstream",
         core=["ERR-WRAP", "ERR-CHECK", "ERR-NOSWALLOW"],
-        aux=["SCH-DONE", "SCH-EXIT", "ERR-CTX", "SCH-BIDICT"],
+        aux=["SCH-DONE", "SCH-EXIT", "ERR-CTX", "SCH-BIDICT", "ERR-FAILSTOP"],
         explanation="The node call is wrapped with id + call location 'from e'; every newly done future is checked before the "
                     "wait helper returns and before the node is removed from the graph; no handler between the check and the API "
                     "boundary; context managers around the node call do not suppress.",
@@ -190,7 +190,7 @@ PROPS = {
     "C18": dict(
         title="An execution restarted from a cache file reuses, not recomputes, cached results",
         core=["CACHE-FLOW"],
-        aux=["CACHE-SHAPE", "CACHE-EXCL", "SCH-PRUNE", "CACHE-PRIORITY", "GT-ALIAS", "GT-POP"],
+        aux=["CACHE-SHAPE", "CACHE-EXCL", "SCH-PRUNE", "CACHE-PRIORITY", "GT-ALIAS", "GT-POP", "GT-ALIASNORM"],
         explanation="Flow: the unpickled mapping reaches, entry by entry and overriding existing entries, the results handed to "
                     "the scheduler; writer and reader agree on the shape; the cache_deps_of ids are all excluded on write; cached "
                     "ids are pruned before scheduling.",
